@@ -18,7 +18,7 @@ TECHNIQUE = ('bounded-exhaustive enumeration (model checking of the implementati
              'real trash-put output judged by an independent reference codec, then read back by the three real readers')
 LEVEL_TEXT = ('all names of the stated alphabet are trashed by the real trash-put in the home trash (absolute Path) and in a '
               '$topdir trash (relative Path); the raw .trashinfo bytes are checked against the spec grammar and decoded by an '
-              'independent percent-decoder; trash-list, trash-restore and trash-rm are then run and must report/match exactly that path')
+              'independent percent-decoder; trash-list (plain and --files), trash-restore and trash-rm are then run and must report/match exactly that path')
 LEVEL_NOTE = ('trusted: the reference codec R1 (unit-tested), CPython; names that are not valid UTF-8 are refused by trash-put '
               '(C16) and counted as not-trashed here; dates outside 4-digit years are out of scope')
 RULE = ('names: each byte b in 1..255 (b != "/") as "b", "ab", "abc" (bytes >= 0x80 inside valid UTF-8 sequences: all 2-byte code '
@@ -222,6 +222,10 @@ def run_case(c):
         if rl.out != '%s %s\n' % (date_s, E) or rl.exit != 0:
             return {'verdict': 'viol', 'sig': 'C03|trash-list-reads-differently|name=%s|form=%s' % (cls, c['form']), 'klass': 'list-mismatch',
                     'nontrivial': 'list|' + dims, 'detail': dict(detail, list_out=rl.out, list_err=rl.err[-300:])}
+        rf = sb.run(['trash-list', '--files'], cwd='/')
+        if rf.out != '%s %s -> %s/files/%s\n' % (date_s, E, tdir, nm) or rf.exit != 0:
+            return {'verdict': 'viol', 'sig': 'C03|trash-list--files-reads-differently|name=%s|form=%s' % (cls, c['form']), 'klass': 'list-mismatch',
+                    'nontrivial': 'listfiles|' + dims, 'detail': dict(detail, list_out=rf.out, list_err=rf.err[-300:])}
         rr = sb.run(['trash-restore', '/'], cwd='/', stdin='\n')
         exp = '%4d %s %s\n' % (0, date_s, E)
         if not rr.out.startswith(exp):
@@ -237,7 +241,7 @@ def run_case(c):
         if scen.info_of(fin, tdir, nm) is not None or world.under(fin, '%s/files/%s' % (tdir, nm)) or rm1.exit != 0:
             return {'verdict': 'viol', 'sig': 'C03|trash-rm-reads-differently|name=%s|form=%s' % (cls, c['form']), 'klass': 'rm-mismatch',
                     'nontrivial': 'rm|' + dims, 'detail': dict(detail, rm_err=rm1.err[-300:], rm_exit=rm1.exit)}
-    return {'verdict': 'ok', 'klass': 'conformant+3readers', 'nontrivial': 'ok|' + dims, 'execs': 5, 'detail': detail}
+    return {'verdict': 'ok', 'klass': 'conformant+3readers', 'nontrivial': 'ok|' + dims, 'execs': 6, 'detail': detail}
 
 
 def main(tier, seed):
